@@ -367,7 +367,7 @@ def describe(case):
 def attribute(case, v):
     """D12 (see C04): a projection inserted with backtracking is moved upstream of a deduplication."""
     universe, leaves, S, base, final, *rest = case
-    if v.kind == "result-not-executable" and final[0] == "proj" and str(v.extra.get("sig", "")).startswith("KeyError@_engine.py:convert_column_expression"):
+    if v.kind == "result-not-executable" and final[0] == "proj" and str(v.extra.get("sig", "")).startswith(("KeyError@_engine.py:convert_column_expression", "ColumnError@_sort.py")):
         from vf.core.known import TRIGGERS
 
         if TRIGGERS["D10"]((final[0], base) + tuple(final[2:])):
